@@ -9,11 +9,17 @@ from translator import t1_operators
 ID = 'C02'
 TRANSLATORS = [t1_operators.translate]
 PROPERTY_FILE = 'Properties/C02.v'
-THEOREMS = []
-PARTIAL = {}
-LEVEL_TEXT = ''
-LEVEL_NOTE = ''
-TECHNIQUE = ''
+THEOREMS = ['C02_empty_wf', 'C02_step_wf_partial', 'C02_history_wf_partial']
+PARTIAL = {
+    'C02_step_wf_partial': 'TO BE FILLED',
+    'C02_history_wf_partial': 'same restriction as C02_step_wf_partial, lifted by induction over the history',
+}
+LEVEL_TEXT = ('TO BE FILLED')
+LEVEL_NOTE = ('TO BE FILLED')
+TECHNIQUE = ('Coq proof by per-operation invariant preservation (one lemma per public mutator: users-index '
+             'multiset bookkeeping with count, explicit rank for acyclicity) + induction over the history; '
+             'model tied to /repo by correspondence of the FULL state after every call of generated histories '
+             'and by evaluating the reflected invariant wfb on every reached state inside Coq')
 TRUSTED = []
 ASSUMPTIONS = []
 
